@@ -556,6 +556,35 @@ pub fn gen_deque(rng: &mut Rng, tier: &Tier) -> Vec<Case> {
 /// C05 (generic part): convolution with random asymmetric kernels, normalisation, delay
 pub fn gen_conv(rng: &mut Rng, tier: &Tier) -> Vec<Case> {
     let mut cases = Vec::new();
+    // machine integers: the normalising constructor divides every coefficient by the sum (exactly here: all
+    // coefficients are multiples of the sum), the filter is an integer FIR
+    for &n in &[1usize, 2, 3, 4, 5] {
+        for _ in 0..tier.n(6, 60) {
+            let norm = rng.chance(2, 3);
+            let c: Vec<i64> = if norm {
+                // multiples of a common factor g whose quotients sum to one: the sum is g
+                let g = *rng.pick(&[2i64, 3, -2, 5, -7, 10]);
+                let mut q: Vec<i64> = (0..n - 1).map(|_| rng.range(-4, 4)).collect();
+                let s: i64 = q.iter().sum();
+                q.push(1 - s);
+                q.iter().map(|x| x * g).collect()
+            } else {
+                (0..n).map(|_| rng.range(-6, 6)).collect()
+            };
+            let cs: Vec<String> = c.iter().map(|x| x.to_string()).collect();
+            let mut case = vec![
+                format!("new 1 {} c={} T=i64", if norm { "convolve_norm" } else { "convolve" }, cs.join(",")),
+                "cfg 1".to_string(),
+            ];
+            let constant = rng.chance(1, 3);
+            let v = rng.range(-9, 9);
+            for _ in 0..rng.range(1, 2 * n as i64 + 3) {
+                case.push(format!("f 1 {}", if constant { v } else { rng.range(-9, 9) }));
+            }
+            case.push("guts 1 taps".into());
+            cases.push(case);
+        }
+    }
     // tap rings filled by hand to every level 0..N and re-injected through `from_guts` (the public state allows
     // it): the filter tops the ring up with the current sample, then behaves as ever
     for &n in &[1usize, 2, 3, 4, 5] {
